@@ -17,6 +17,7 @@ HSK == WriteForged(KeyMagic, Sym("s_priv"), Sym("s_pub"), Sym("e_priv"), Sym("e_
 HSZ == WriteForged(KeyMagic, Sym("s_priv"), Sym("s_pub"), Sym("e_priv"), Sym("e_pub"), Sym("rs"), Sym("payload"), "zero_ss")
 
 RS == ReadSchedule(KeyMagic, Sym("r_priv"), Sym("r_pub"), Sym("e_pub"), Sym("enc_s"), Sym("s_pub"), Sym("enc_p"))
+RN == ReadScheduleNull(KeyMagic, Sym("r_pub"), Sym("e_pub"), Sym("enc_s"), Sym("enc_p"))
 
 Templates ==
   [ chunk_record |-> ChunkRecord(Sym("key"), Sym("prefix"), NSym("ctr"), NSym("last"), NSym("len"), Sym("pt")),
@@ -41,6 +42,9 @@ Templates ==
     rd_k1        |-> RS.k1,  rd_n1 |-> RS.n1,  rd_ad1 |-> RS.ad1,
     rd_k2        |-> RS.k2,  rd_n2 |-> RS.n2,  rd_ad2 |-> RS.ad2,  rd_hh |-> RS.hh,
     rd_file_key  |-> KeyFileKey(Sym("payload"), RS.hh),
+    null_k1      |-> RN.k1,  null_n1 |-> RN.n1,  null_ad1 |-> RN.ad1,
+    null_k2      |-> RN.k2,  null_n2 |-> RN.n2,  null_ad2 |-> RN.ad2,
+    null_file_key|-> KeyFileKey(Sym("payload"), RN.hh),
     key_header_skip_ss   |-> KeyHeader(HSK),  key_file_key_skip_ss |-> KeyFileKey(Sym("payload"), HSK.hh),
     key_header_zero_ss   |-> KeyHeader(HSZ),  key_file_key_zero_ss |-> KeyFileKey(Sym("payload"), HSZ.hh),
     noise_msg_p  |-> HSP.msg,
